@@ -338,6 +338,142 @@ func genCacheGlue() {
 	}
 	l.defStr("cacheglue_cacheDirForPackageErr", cdErr)
 	l.defStrList("cacheglue_cachePackageCalls", cachePkgArgs)
+	// --- GetRepositoryIndexes: under which condition a repository whose index could not be read is DROPPED (instead
+	// of failing the build), the definitions of the identifiers of that condition, what the branch does; and the
+	// test by which indexCache.get sends a repository through the transport (remote) or reads it from disk (local)
+	fx := load("pkg/apk/apk/index.go")
+	skipCond, remoteTest := "<missing>", "<missing>"
+	var skipDefs, skipBody []string
+	if fd := fx.fn("GetRepositoryIndexes"); fd != nil {
+		ast.Inspect(fd.Body, func(n ast.Node) bool {
+			bs, ok := n.(*ast.BlockStmt)
+			if !ok {
+				return true
+			}
+			for i, st := range bs.List {
+				is, ok := st.(*ast.IfStmt)
+				if !ok || !strings.Contains(fx.src(is.Cond), "ErrNotExist") {
+					continue
+				}
+				skipCond = fx.src(is.Cond)
+				idents := map[string]bool{}
+				ast.Inspect(is.Cond, func(m ast.Node) bool {
+					if id, ok := m.(*ast.Ident); ok {
+						idents[id.Name] = true
+					}
+					return true
+				})
+				for _, prev := range bs.List[:i] {
+					if as, ok := prev.(*ast.AssignStmt); ok {
+						for _, lhs := range as.Lhs {
+							if id, ok := lhs.(*ast.Ident); ok && idents[id.Name] {
+								skipDefs = append(skipDefs, fx.src(as))
+							}
+						}
+					}
+				}
+				for _, b := range is.Body.List {
+					switch x := b.(type) {
+					case *ast.ReturnStmt:
+						skipBody = append(skipBody, fx.src(x))
+					case *ast.ExprStmt:
+						if ce, ok := x.X.(*ast.CallExpr); ok {
+							skipBody = append(skipBody, fx.src(ce.Fun)+"(…)")
+						}
+					default:
+						skipBody = append(skipBody, fx.src(b))
+					}
+				}
+				if is.Else != nil {
+					skipBody = append(skipBody, "else …")
+				}
+			}
+			return true
+		})
+	}
+	if fd := fx.fn("indexCache.get"); fd != nil {
+		ast.Inspect(fd.Body, func(n ast.Node) bool {
+			if is, ok := n.(*ast.IfStmt); ok && remoteTest == "<missing>" && strings.Contains(fx.src(is.Body), "http.MethodHead") &&
+				strings.Contains(fx.src(is.Cond), "http") {
+				remoteTest = fx.src(is.Cond)
+			}
+			return true
+		})
+	}
+	if skipCond == "<missing>" {
+		problem("index.go: the ErrNotExist branch of GetRepositoryIndexes was not recognised")
+	}
+	if remoteTest == "<missing>" {
+		problem("index.go: the remote / local test of indexCache.get was not recognised")
+	}
+	if skipDefs == nil {
+		skipDefs = []string{}
+	}
+	if skipBody == nil {
+		skipBody = []string{}
+	}
+	l.defStr("cacheglue_indexSkipCond", skipCond)
+	l.defStrList("cacheglue_indexSkipDefs", skipDefs)
+	l.defStrList("cacheglue_indexSkipBody", skipBody)
+	l.defStr("cacheglue_indexRemoteTest", remoteTest)
+	// the error of fetchOffline when the entry directory cannot be listed: it must wrap the error of os.ReadDir
+	offListErr := "<missing>"
+	if fd := f.fn("cacheTransport.fetchOffline"); fd != nil {
+		for i, st := range fd.Body.List {
+			if as, ok := st.(*ast.AssignStmt); ok && strings.Contains(f.src(as), "os.ReadDir(") && i+1 < len(fd.Body.List) {
+				if is, ok := fd.Body.List[i+1].(*ast.IfStmt); ok {
+					var body []string
+					for _, b := range is.Body.List {
+						body = append(body, f.src(b))
+					}
+					offListErr = f.src(as) + "; " + f.src(is.Cond) + " => " + strings.Join(body, "; ")
+				}
+			}
+		}
+	}
+	if offListErr == "<missing>" {
+		problem("cache.go: the os.ReadDir call of fetchOffline was not recognised")
+	}
+	l.defStr("cacheglue_offlineListErr", offListErr)
+
+	// --- etagFromResponse: every response header it reads (the value it returns names the on-disk entry and the key
+	// of the parsed-index table: it has to identify the body)
+	hdrs := map[string]bool{}
+	if fd := f.fn("etagFromResponse"); fd != nil {
+		lit := func(e ast.Expr) {
+			ast.Inspect(e, func(m ast.Node) bool {
+				if bl, ok := m.(*ast.BasicLit); ok && strings.HasPrefix(bl.Value, "\"") {
+					hdrs[strings.ToLower(strings.Trim(bl.Value, "\""))] = true
+				}
+				return true
+			})
+		}
+		ast.Inspect(fd.Body, func(n ast.Node) bool {
+			switch x := n.(type) {
+			case *ast.IndexExpr:
+				if strings.HasSuffix(f.src(x.X), ".Header") {
+					lit(x.Index)
+				}
+			case *ast.CallExpr:
+				if fn := f.src(x.Fun); strings.Contains(fn, ".Header.") || strings.HasSuffix(fn, ".Header.Get") {
+					for _, a := range x.Args {
+						lit(a)
+					}
+				}
+			}
+			return true
+		})
+	}
+	var hl []string
+	for h := range hdrs {
+		hl = append(hl, h)
+	}
+	sort.Strings(hl)
+	if len(hl) == 0 {
+		problem("cache.go: etagFromResponse reads no response header that was recognised")
+	}
+	l.defStrList("cacheglue_etagHeaders", hl)
+	hashFn("pkg/apk/apk/index.go", "GetRepositoryIndexes")
 	hashFn("pkg/apk/apk/cache.go", "cacheTransport.head")
 	hashFn("pkg/apk/apk/cache.go", "cacheDirFromFile")
 	hashFn("pkg/apk/apk/cache.go", "etagFromResponse")
